@@ -31,17 +31,18 @@ METHODS = (
     "link_betweenness edge_betweenness newman_betweenness arenas_betweenness "
     "matching_index coreness assortativity laplacian eigenvector_centrality "
     "pagerank msf_synchronizability nsi_degree nsi_indegree nsi_outdegree "
-    "nsi_bildegree nsi_local_clustering nsi_betweenness "
-    "nsi_local_cyclemotif_clustering nsi_local_midmotif_clustering "
-    "nsi_local_inmotif_clustering nsi_local_outmotif_clustering").split()
+    "nsi_bildegree nsi_local_clustering nsi_betweenness").split()
 
-# The corrected n.s.i. motif clusterings document `typical_weight` with the
-# same words as nsi_degree / nsi_local_clustering ("typical node weight to be
-# used for correction"), but DESIGN.md lists only the latter; the relation
-# "corrected value at uniform weights == unweighted coefficient" is therefore
-# checked under its own signatures (nsi_local_*motif_clustering:...) and can be
-# switched off here.
-CHECK_CORRECTED_MOTIF = True
+# The corrected n.s.i. motif clusterings (`typical_weight` given) are NOT part
+# of the oracle: their docstrings only say "typical node weight to be used for
+# correction" and state no relation to the unweighted coefficients, and
+# tests/test_core/test_network.py::test_nsi_local_cyclemotif_clustering pins
+# the present values.  (Observation, for the record: at uniform weights they
+# differ from the unweighted motif clusterings, e.g. inf instead of 1 on an
+# undirected triangle; selftest/proposed_fixes/c03_09_*.patch makes the
+# relation hold.)  Set to True to compare them under their own signatures
+# nsi_local_*motif_clustering:typical_weight=*.
+CHECK_CORRECTED_MOTIF = False
 
 META = dict(
     shards={"quick": 16, "thorough": 16},
@@ -69,9 +70,9 @@ META = dict(
         "with N<3 or zero efficiency, random-walk/matching/cliquishness measures "
         "on directed graphs) are skipped and counted. Unit-weight relations: with "
         "node weights c*1 and typical_weight=c the corrected nsi_(in/out/bil)degree "
-        "equal the plain degrees, nsi_local_clustering equals local_clustering "
-        "on nodes of degree >= 2 and the four corrected nsi_local_*motif_clustering "
-        "equal the unweighted motif clusterings where their denominator is non-zero; with unit node weights nsi_*degree(key) equal the "
+        "equal the plain degrees and nsi_local_clustering equals local_clustering "
+        "on nodes of degree >= 2 (the corrected nsi_local_*motif_clusterings are "
+        "not compared: no relation is documented); with unit node weights nsi_*degree(key) equal the "
         "strengths and nsi_betweenness() equals twice the betweenness. "
         "non-trivial = distinct (labelled graph, directedness, measure, argument "
         "pattern) whose reference value is not constant over the compared "
